@@ -84,6 +84,21 @@ def gen(rng, tier):
                 lines.append("weight %s %s %s" % rng.choice(keys))
             elif r < 0.49:
                 lines += ["race %d %d" % (rng.randint(0, 40), rng.randint(0, 40)), "servers"]
+            elif r < 0.56 and via == "rb":
+                # a removal issued while a request's weight adjustment is being applied: make one server an
+                # outlier (or let weights converge back), all meters ready, clock past the back-off
+                for k in keys:
+                    lines.append("ready %s %s %s 1" % k)
+                bad = rng.choice(keys)
+                for k in keys:
+                    lines.append("rate %s %s %s %d/16" % (k + ((8 if k == bad else 0) if rng.random() < 0.8 else 0,)))
+                lines.append("adv %d" % (10 ** 9 + 1))
+                victim = rng.choice(keys if rng.random() < 0.9 else allkeys)
+                lines += ["serve-remove %s %s %s" % victim, "servers", "weights"]
+                lines += ["next"] * rng.randint(2, 6)
+                lines += ["serve"] * rng.randint(0, 3)
+                if rng.random() < 0.5:
+                    lines += ["remove %s %s %s" % victim, "servers"]
             elif r < 0.62:
                 lines += ["next"] * rng.randint(1, 12)
             elif r < 0.67 and via == "rb":
@@ -184,6 +199,16 @@ def walk(ops, outs):
             ref = Ref(f)
             continue
         if ref is None:
+            continue
+        if f[0] == "serve-remove" and len(f) == 4 and " ; " in o:
+            # a request, then (atomically after it) the removal that was issued while it adjusted weights
+            a, b = o.split(" ; ", 1)
+            yield ref, ["serve"], a, {}
+            k = _key(f[1:])
+            info = {"known": k in ref.pool, "raced": True}
+            if b == "ok":
+                ref.pool.pop(k, None)
+            yield ref, ["remove"] + f[1:], b, info
             continue
         info = {}
         if f[0] == "upsert" and len(f) >= 4:
@@ -322,6 +347,8 @@ def describe(ops, outs, hist):
             hist["remove:" + ("known" if info.get("known") else "unknown")] += 1
         if f[0] == "upsert":
             hist["upsert:" + ("neg" if info.get("neg") else "existing" if info.get("known") else "new")] += 1
+        if info.get("raced"):
+            hist["serve-remove"] += 1
         if f[0] == "serve":
             hist["serve:" + o.split()[0] + (":mutate" if "mutate=" in " ".join(f) else "")] += 1
         if o.startswith("err") or o.startswith("500"):
